@@ -21,7 +21,7 @@ WATCHDOG = {"quick": 900, "thorough": 3000}
 REQUIRED_CLASSES = {t: ["bins=1", "bins=2", "bins=101", "load_on_edge", "load_ulp_below_edge", "load_ulp_above_edge",
                         "load_zero", "load=+max", "load=-max", "load_above_max", "load_ulp_above_max", "negative_load",
                         "lookup:scalar", "lookup:series_plain_lut", "lookup:series_multi_lut", "branch:secondary",
-                        "law:neuber", "law:seegerbeste", "max_irrational", "per_point:load_ratio>100", "tables_of_similar_laws_alive"]
+                        "law:neuber", "law:seegerbeste", "max_irrational", "per_point:load_ratio>100", "per_point:mixed_signs", "tables_of_similar_laws_alive"]
                     for t in ("quick", "thorough")}
 REQUIRED_MONITORS = ["contract:lookup==law_at_upper_edge", "contract:raises_above_max", "contract:no_raise_in_range",
                      "never_underestimates", "monotone", "less_than_one_class_off", "zero_load", "per_point_tables==single"]
@@ -281,9 +281,14 @@ def run_case(case, ctx):
                 factors = factors / factors[0]
             if factors.max() / factors.min() > 100:
                 ctx.tag("per_point:load_ratio>100")
+            # tension at one point while another is in compression: magnitudes proportional, signs of their own
+            if rng.random() < 0.4:
+                factors = factors * np.concatenate([[1.0], rng.choice([-1.0, 1.0], k - 1)])
+                if (factors < 0).any():
+                    ctx.tag("per_point:mixed_signs")
             node_ids = (rng.permutation(k) + int(rng.integers(1, 50))).tolist()
-            b = NAL.Binned(law, pd.Series(mx * factors, index=pd.Index(node_ids, name="node_id")), bins)
-            singles = [NAL.Binned(law, float(mx * f), bins) for f in factors]
+            b = NAL.Binned(law, pd.Series(mx * np.abs(factors), index=pd.Index(node_ids, name="node_id")), bins)
+            singles = [NAL.Binned(law, float(mx * abs(f)), bins) for f in factors]
             # per-point tables equal the tables each point gets alone (solver tolerance)
             ok, bad = True, None
             for p, (nid, sb) in enumerate(zip(node_ids, singles)):
